@@ -138,9 +138,13 @@ pub fn deliveries(a: &Analysis) -> Vec<Delivery> {
                         vec![(RTrig::EMut(*ent, *comp), true), (RTrig::Mut(*comp), true)],
                     )
                 } else {
-                    // tolerance 7: type-wide reactions for a mutation trigger of a dead entity are unconstrained
+                    // tolerance 7 (narrowed): an *accessor* call that found the component did mutate it, and C14 gives
+                    // every such call exactly one trigger - type-wide reactors must still be told, even though the
+                    // entity was despawned before the trigger was applied. An explicit `trigger_mutation` naming an
+                    // entity that is already gone stays unconstrained (C01 says run, C18 says don't).
                     target_dead = true;
-                    (DKind::Mutation, Key::Mut(*comp, *ent), vec![(RTrig::Mut(*comp), false)])
+                    let performed = matches!(&c.act, RAct::Access { hit: true, .. });
+                    (DKind::Mutation, Key::Mut(*comp, *ent), vec![(RTrig::Mut(*comp), performed)])
                 }
             }
             RAct::ResAccess { ty, triggers: true, .. } | RAct::ResTrigger { ty } => {
